@@ -2,6 +2,8 @@ package c07
 
 import (
 	"github.com/bronlabs/bron-crypto/pkg/mpc/sharing/accessstructures"
+	"github.com/bronlabs/bron-crypto/pkg/proofs/sigma/compiler/fischlin"
+	"github.com/bronlabs/bron-crypto/pkg/proofs/sigma/compiler/randfischlin"
 	"github.com/bronlabs/bron-crypto/pkg/mpc/sharing/accessstructures/unanimity"
 
 	"verifmc/proto"
@@ -70,8 +72,8 @@ func thoroughCases() []*kase {
 		hjkyCase("T24", t24, i4), hjkyCase("T34", t34, i4), hjkyCase("U2", unanimous(i2...), i2), hjkyCase("U4", unanimous(i4...), i4),
 		dkls23Case("T22-q12", t22, i2, []byte("m")),
 		dkls23Case("T23-q13", t23, []ID{1, 3}, []byte("m")),
-		lindell17Case("T22-p1-s2", t22, 1, 2, []byte("m")),
-		lindell17Case("T23-p3-s2", t23, 3, 2, []byte("m")),
+		lindell17Case("T22-p1-s2", t22, 1, 2, fischlin.Name, []byte("m")),
+		lindell17Case("T23-p3-s2", t23, 3, 2, randfischlin.Name, []byte("m")),
 		ecbbotCase(16, 2), ecbbotCase(128, 1),
 		vsotCase(16, 2), vsotCase(128, 1),
 		softspokenCase(128, 1), softspokenCase(256, 2),
